@@ -7,8 +7,8 @@ from vlib.core import Case
 PROP = "C18"
 SPEC_MODE = "spec"
 KEEP_PREFIX = 0
-SIZES = {"quick": 2400, "thorough": 40000}
-BATCH = 2400
+SIZES = {"quick": 8000, "thorough": 60000}
+BATCH = 4000
 RULE = ("payload sequences (3-12 deliveries on one or two of the five modules, fresh handlers and cleared managers per case); payloads are "
         "encoded from rule values by an independent tag-driven encoder (shuffled/omitted/null/duplicate/unknown keys, boundary numbers, out-of-range "
         "and wrongly typed values), plus null elements, empty/null/[]/whitespace, truncations, garbage, exact redeliveries, A-B-A, valid-after-invalid, "
@@ -42,7 +42,7 @@ TAGS = {
 RANGE = {"int32": (-2 ** 31, 2 ** 31 - 1), "uint32": (0, 2 ** 32 - 1), "int64": (-2 ** 63, 2 ** 63 - 1), "int": (-2 ** 63, 2 ** 63 - 1),
          "uint64": (0, 2 ** 64 - 1)}
 
-RES = ["r1", "r1", "r2", "a b", "x\"y", "back\\slash", "svc/GET:/api", ""]
+RES = ["r1", "r1", "r2", "a b", "x\"y", "back\\slash", "svc/GET:/api", "tab\there\nnl", ""]
 IDS = ["", "", "a", "id-1", "b"]
 # float literals: exactly representable ones dominate; a few common decimals; -0.0 / 1e-8 neighbours for the equality corners
 FLOATS = ["0", "1", "10", "0.5", "1.5", "2.25", "100.125", "1e3", "1E2", "2.5e-1", "1.0", "0.0", "3", "7", "0.1", "0.7", "99.9", "0.25", "1000000",
@@ -52,7 +52,7 @@ BAD_FLOATS = ["1e400", "-1e999"]
 
 
 def jstr(s):
-    return '"' + s.replace("\\", "\\\\").replace('"', '\\"') + '"'
+    return '"' + s.replace("\\", "\\\\").replace('"', '\\"').replace("\n", "\\n").replace("\t", "\\t") + '"'
 
 
 def gen_int(rng, kind, valid_pool):
